@@ -312,7 +312,7 @@ def _call(ctx, fn):
         if isinstance(exc, RuntimeError) and "Maximum number of iterations" in str(exc):
             # scipy.optimize.nnls gave up inside the split2 fit (observed for core(O) + two broad Gaussians, GL 103 nodes,
             # default 20-exponent basis): an iteration limit of the fit, reported to the lead, counted separately
-            ctx.skip("no convergence (nnls iteration limit in split2)")
+            ctx.skip("nnls-no-convergence")
             return None
         raise
 
